@@ -376,6 +376,44 @@ pub fn gen_ecl10(rng: &mut Rng, game: Game) -> GenSource {
     GenSource { format: Format::Ecl, game, text, maps: vec![] }
 }
 
+/// Names for the include lists of stack ECL files: every encoded byte length mod 4, and characters whose Shift-JIS and
+/// UTF-8 lengths differ (hiragana / kanji: 2 vs 3 bytes, half-width katakana: 1 vs 3 bytes), so that the total difference
+/// of a string takes every value mod 4.
+pub const ECL10_NAMES: &[&str] = &["", "x", "ab", "abc", "abcd", "abcde", "default.ecl", "a.anm", "enemy.anm", "st01.ecl", "\u{3042}", "\u{3042}.anm", "\u{3042}\u{3044}",
+    "\u{6575}\u{5f3e}.ecl", "\u{ff71}", "\u{ff71}\u{ff72}", "\u{ff71}\u{ff72}.anm", "\u{3042}\u{ff71}", "\u{ff71}\u{ff72}\u{ff73}", "\u{3042}\u{3044}\u{3046}\u{ff71}", "abcdefghijklmnopqrstuvwxyz0123456789.anm",
+    "\u{535a}\u{9e97}\u{970a}\u{5922}_long_name.ecl", "st07\u{30dc}\u{30b9}.ecl", "\u{ff8a}\u{ff9f}\u{ff7d}/\u{ff71}.anm"];
+
+/// Stack ECL (TH10+), wider than `gen_ecl10`: longer include lists over `ECL10_NAMES`, up to 6 subs, raw instructions
+/// with `@mask` / `@pop` / `@nargs`, difficulty labels and time labels (used by the model-compared container cases).
+pub fn gen_ecl10_wide(rng: &mut Rng, game: Game) -> GenSource {
+    let list = |rng: &mut Rng| -> String { let n = *rng.pick(&[0usize, 0, 1, 1, 2, 3, 4, 7, 12]); (0..n).map(|_| format!("\"{}\"", rng.pick(ECL10_NAMES))).collect::<Vec<_>>().join(", ") };
+    let mut text = String::new();
+    match rng.below(6) {
+        0 => {},
+        1 => text.push_str(&format!("meta {{ anim: [{}] }}\n", list(rng))),
+        2 => text.push_str(&format!("meta {{ ecli: [{}] }}\n", list(rng))),
+        _ => text.push_str(&format!("meta {{ anim: [{}], ecli: [{}] }}\n", list(rng), list(rng))),
+    }
+    let nsubs = *rng.pick(&[1usize, 1, 2, 2, 3, 4, 6]);
+    let sub_names = ["main", "sub1", "a", "BossCard1", "MainSub02", "x_y_z"];
+    for i in 0..nsubs {
+        let mut body = String::new();
+        for _ in 0..*rng.pick(&[0usize, 0, 1, 2, 3, 5, 9]) {
+            if rng.chance(1, 4) { body.push_str(&format!("+{}:\n", rng.pick(&[1, 10, 60, 100000]))); }
+            if rng.chance(1, 5) { body.push_str(&format!("{{\"{}\"}}:\n", rng.pick(&["0", "01", "23", "0123", "7", "*"]))); }
+            let len = 4 * *rng.pick(&[0usize, 0, 1, 1, 2, 3, 5, 16]);
+            let blob: String = (0..len).map(|k| format!("{:02x}", (k * 13 + i * 7 + 1) % 256)).collect();
+            let mut pseudo = String::new();
+            if rng.chance(1, 3) { pseudo.push_str(&format!("@mask={}, ", rng.pick(&[0u32, 1, 3, 255, 256, 65535]))); }
+            if rng.chance(1, 3) { pseudo.push_str(&format!("@pop={}, ", rng.pick(&[0u32, 1, 2, 8, 255]))); }
+            if rng.chance(1, 3) { pseudo.push_str(&format!("@nargs={}, ", rng.pick(&[0u32, 1, 2, 5, 255]))); }
+            body.push_str(&format!("    ins_{}({pseudo}@blob=\"{blob}\");\n", rng.pick(&[0, 1, 10, 23, 40, 300, 1000, 65534, 65535])));
+        }
+        text.push_str(&format!("void {}() {{\n{body}}}\n", sub_names[i]));
+    }
+    GenSource { format: Format::Ecl, game, text, maps: vec![] }
+}
+
 /// the `!difficulty_flags` section of the repository's own map/th06.eclm
 pub const ECL_DIFFICULTY_MAP: &str = "!eclmap\n!difficulty_flags\n0 E-\n1 N-\n2 H-\n3 L-\n4 4-\n5 5-\n6 6-\n7 7-\n";
 
